@@ -4,7 +4,9 @@ import OV.Lemmas.C01Sim
 import OV.Lemmas.C01SimIf
 import OV.Lemmas.C01SimFor
 import OV.Lemmas.C01SimNest
+import OV.Lemmas.C01SimSLT
 import OV.Model.C01Env
+import OV.Lemmas.C01ExportSem
 /-!
 # C01 — script functions mean the same eagerly, as an ONNX graph, and as plain Python
 
@@ -84,9 +86,10 @@ example : loopFree (.ite (.var "c") [.assign "x" (.var "A")] []) = true
 /-! ### The refinement, first stage: straight-line functions -/
 
 /-- **`convert_correct`, stage 1 (straight-line code).**  For every function whose body is a sequence of
-assignments `x = <expr>` or parallel assignments `x, y = <expr>, <expr>` (any expression of the subset: names, literals, `op.X(...)` calls with attributes,
+assignments `x = <expr>`, parallel assignments `x, y = <expr>, <expr>` or tuple assignments `x, y = op.Foo(…)` from a
+multi-output operator (any expression of the subset: names, literals, `op.X(...)` calls with attributes,
 calls of other script functions, Python binary / unary / comparison operators incl. `!=`, negated literals,
-`%` with a float) followed by `return e1, …, en`, whose parameters are all tensors with distinct names:
+`%` with a float) followed by `return e1, …, en`, whose parameters have distinct names:
 whenever the model converter accepts it and reading the source as plain Python over tensors — literals
 staying Python scalars until an operator consumes and promotes them (`Constant` + `CastLike` to the sibling
 sharing the type variable) — yields outputs `vs`, the emitted graph evaluates to exactly `vs`, for **every**
@@ -96,16 +99,18 @@ inputs and duplicate outputs through `Identity`).
 Attribute parameters may be declared and forwarded to operators as attributes (`op.Foo(x, alpha=alpha)`: the node
 carries the reference `@alpha`, both sides read it through `S`); *reading* one as a value is outside (the plain-Python
 side of this model gives it no value, so `he` fails).
-`_partial`: `if` / `for` / `while` / tuple assignment are not covered here (stages 2-4); for `while`
+`_partial`: `if` / `for` / `while` are not covered here (stages 2-4); for `while`
 with a trailing break and for literals crossing an `if` the statement is false for the code as it is (below). -/
 theorem convert_correct_partial {V : Type} (S : Sem V)
     (hConst : ∀ l, ∃ c, constOf S l = some c)
     (hId : ∀ v, S.op "" "Identity" [some v] [] = some [v])
-    (f : Func) (g : Graph) (hsl : straightLine f.body = true)
+    (f : Func) (g : Graph) (hsl : straightLineT f.body = true)
+    (hσ : ∀ x l, S.attrLit x = some l → ∃ ty, Param.attr x ty ∈ f.params ∧ AttrVal S x ty l)
+    (ht : ∀ x, x ∈ targetsBlock f.body → S.attrLit x = none)
     (hnames : (f.params.map Param.name).Nodup) (h : convert f = .ok g)
     (fuel : Nat) (args vs : List V) (he : evalFunc S fuel f args = some vs) :
     evalGraph S fuel g args = some vs :=
-  convert_correct_sl S hConst hId hsl hnames h he
+  convert_correct_slT S hConst hId hsl hσ ht hnames h he
 
 /-- Non-vacuity: `x = A + 1; y = x != B; return y, A` is straight-line, accepted, and evaluates under a
 concrete operator meaning. -/
@@ -135,6 +140,37 @@ example : straightLine slDemo.body = true ∧ (convert slDemo).toOption.isSome =
     ∧ evalFunc Sdemo 0 slDemo [4, 5] = some [0, 4] := by
   refine ⟨by decide, by decide +kernel, by decide +kernel⟩
 
+/-- Non-vacuity of the tuple part of stage 1: `two = 2; x, y = Dup(A); z = x + y; return z, A` (a literal-valued
+variable next to a tuple assignment). -/
+def slTupleDemo : Func :=
+  { name := "f", params := [.tensor "A"], retCount := none,
+    body := [
+      .assign "two" (.lit (.int 2)),
+      .tuple ["x", "y"] (.call "" "Dup" { known := false, variadic := false, homog := false, tvs := [] } [.var "A"] []),
+      .assign "z" (.binop "Add" (.var "x") (.var "y")),
+      .ret [.var "z", .var "A"] false] }
+
+def SdemoDup : Sem Int where
+  op := fun _ name ins _ =>
+    match name, ins with
+    | "Constant", [] => some [2]
+    | "Dup", [some a] => some [a, a + 1]
+    | "Add", [some a, some b] => some [a + b]
+    | "Identity", [some a] => some [a]
+    | _, _ => none
+  truth := fun v => some (v ≠ 0)
+  natOf := fun v => some v.toNat
+  ofNat := fun n => Int.ofNat n
+  ofBool := fun b => if b then 1 else 0
+
+example : straightLineT slTupleDemo.body = true ∧ straightLine slTupleDemo.body = false
+    ∧ forLine slTupleDemo.body = false
+    ∧ evalFunc SdemoDup 0 slTupleDemo [4] = some [9, 4]
+    ∧ (match convert slTupleDemo with
+       | .ok g => evalGraph SdemoDup 0 g [4] == some [9, 4]
+       | .error _ => false) = true := by
+  refine ⟨by decide +kernel, by decide +kernel, by decide +kernel, by decide +kernel, by decide +kernel⟩
+
 /-! ### The refinement, second stage: nested `if`/`else` -/
 
 /-- **`convert_correct`, stage 2 (straight-line code with `if`/`else` nested to any depth).**  For every
@@ -155,12 +191,15 @@ parameters only as forwarded operator attributes; a bare literal may not be *ass
 theorem convert_correct_ite_partial {V : Type} (S : Sem V)
     (hConst : ∀ l, ∃ c, constOf S l = some c)
     (hId : ∀ v, S.op "" "Identity" [some v] [] = some [v])
+    (hTL : ∀ l c b, constOf S l = some c → truthPV S (.py l) = some b → S.truth c = some b)
     (f : Func) (g : Graph) (hil : ifLine f.body = true)
     (hattr : ∀ p, p ∈ attrParams f.params → p ∉ targetsBlock f.body)
+    (hσ : ∀ x l, S.attrLit x = some l → ∃ ty, Param.attr x ty ∈ f.params ∧ AttrVal S x ty l)
+    (hPy : ∀ x, x ∈ S.pyVars → x ∉ targetsBlock f.body)
     (hnames : (f.params.map Param.name).Nodup) (h : convert f = .ok g)
     (fuel : Nat) (args vs : List V) (he : evalFunc S fuel f args = some vs) :
     evalGraph S fuel g args = some vs :=
-  convert_correct_if S hConst hId hil hattr hnames h he
+  convert_correct_if S hConst hId hTL hil hattr hσ hPy hnames h he
 
 /-- Non-vacuity: `x = A + 1; if c: y = x != B  else: (if d: y = x  else: x = B; y = x + 1); return y, x` —
 `y` defined in both branches, `x` re-assigned in one inner branch only, an outer value aliased in a branch. -/
@@ -210,6 +249,7 @@ as forwarded operator attributes and never re-bound (`hattr`). -/
 theorem convert_correct_for_partial {V : Type} (S : Sem V)
     (hConst : ∀ l, ∃ c, constOf S l = some c)
     (hId : ∀ v, S.op "" "Identity" [some v] [] = some [v])
+    (hTL : ∀ l c b, constOf S l = some c → truthPV S (.py l) = some b → S.truth c = some b)
     (hT : S.truth (S.ofBool true) = some true)
     (hNat : ∀ k c, constOf S (.int k) = some c → S.natOf c = some k.toNat)
     (hNot : ∀ v b, S.truth v = some b → ∃ w, S.op "" "Not" [some v] [] = some [w] ∧ S.truth w = some (!b))
@@ -217,10 +257,12 @@ theorem convert_correct_for_partial {V : Type} (S : Sem V)
       (yb = false → S.truth w = some false) ∧ (yb = true → S.truth w = S.truth x))
     (f : Func) (g : Graph) (hfl : forLine f.body = true)
     (hattr : ∀ p, p ∈ attrParams f.params → p ∉ targetsBlock f.body)
+    (hσ : ∀ x l, S.attrLit x = some l → ∃ ty, Param.attr x ty ∈ f.params ∧ AttrVal S x ty l)
+    (hPy : ∀ x, x ∈ S.pyVars → x ∉ targetsBlock f.body)
     (hnames : (f.params.map Param.name).Nodup) (h : convert f = .ok g)
     (fuel : Nat) (args vs : List V) (he : evalFunc S fuel f args = some vs) :
     ∃ fuel', evalGraph S fuel' g args = some vs :=
-  convert_correct_for S hConst hId hT hNat hNot hAnd hfl hattr hnames h he
+  convert_correct_for S hConst hId hTL hT hNat hNot hAnd hfl hattr hσ hPy hnames h he
 
 /-- Graph evaluation is monotone in the fuel, so "some fuel" above means "every large enough fuel". -/
 theorem evalGraph_fuel_mono {V : Type} (S : Sem V) (g : Graph) (args vs : List V) (f f' : Nat) (hle : f ≤ f')
@@ -308,17 +350,21 @@ forwarded operator attributes and never re-bound (`hattr`). -/
 theorem convert_correct_nested_partial {V : Type} (S : Sem V)
     (hConst : ∀ l, ∃ c, constOf S l = some c)
     (hId : ∀ v, S.op "" "Identity" [some v] [] = some [v])
+    (hTL : ∀ l c b, constOf S l = some c → truthPV S (.py l) = some b → S.truth c = some b)
     (hT : S.truth (S.ofBool true) = some true)
     (hNat : ∀ k c, constOf S (.int k) = some c → S.natOf c = some k.toNat)
     (hNot : ∀ v b, S.truth v = some b → ∃ w, S.op "" "Not" [some v] [] = some [w] ∧ S.truth w = some (!b))
     (hAnd : ∀ x y yb, S.truth y = some yb → ∃ w, S.op "" "And" [some x, some y] [] = some [w] ∧
       (yb = false → S.truth w = some false) ∧ (yb = true → S.truth w = S.truth x))
     (f : Func) (g : Graph) (hnl : nestLine f.body = true)
-    (hattr : ∀ p, p ∈ attrParams f.params → p ∉ targetsBlock f.body)
+    (hattr : ∀ p, p ∈ attrParams f.params → p ∉ targetsTop f.body)
+    (hσ : ∀ x l, S.attrLit x = some l → ∃ ty, Param.attr x ty ∈ f.params ∧ AttrVal S x ty l)
+    (hPy : ∀ x, x ∈ S.pyVars → x ∉ targetsTop f.body)
+    (hLT : ∀ x, x ∈ litTargets f.body → S.attrLit x = none ∧ x ∈ S.pyVars)
     (hnames : (f.params.map Param.name).Nodup) (h : convert f = .ok g)
     (fuel : Nat) (args vs : List V) (he : evalFunc S fuel f args = some vs) :
     ∃ fuel', evalGraph S fuel' g args = some vs :=
-  convert_correct_nest S hConst hId hT hNat hNot hAnd hnl hattr hnames h he
+  convert_correct_nest S hConst hId hTL hT hNat hNot hAnd hnl hattr hσ hPy hLT hnames h he
 
 /-- Non-vacuity: a loop in a loop (the inner trip count `rem` shrinks to zero in later outer iterations, `t` is
 only assigned by the inner loop and read after it), an `if` in the inner loop, and a loop in a branch:
@@ -442,6 +488,160 @@ example : nestLine attrDemo.body = true
        | .ok g => evalGraph S3 8 g [2, 3] == some [54]
        | .error _ => false) = true := by
   refine ⟨by decide +kernel, by decide +kernel, by decide +kernel, by decide +kernel⟩
+
+/-- Non-vacuity of the literal-variable part of stage 4: `two = 2; acc = A; for i in range(n): acc = acc + two;
+return acc + two` — a variable holding a Python scalar, read inside a loop and after it.  `S6` sets it aside
+(`pyVars`), which is all `hPy` / `hLT` ask. -/
+def litVarDemo : Func :=
+  { name := "f", params := [.tensor "A", .tensor "n"], retCount := none,
+    body := [
+      .assign "two" (.lit (.int 2)),
+      .assign "acc" (.var "A"),
+      .for_ "i" true (.var "n") [.assign "acc" (.binop "Add" (.var "acc") (.var "two"))],
+      .ret [.binop "Add" (.var "acc") (.var "two")] false] }
+
+def S6 : Sem Int where
+  op := fun _ name ins attrs =>
+    match name, ins with
+    | "Constant", [] => (match attrs with | [(_, .const "i:2")] => some [2] | _ => some [0])
+    | "CastLike", [some a, some _] => some [a]
+    | "Add", [some a, some b] => some [a + b]
+    | "Identity", [some a] => some [a]
+    | _, _ => none
+  truth := fun v => some (v ≠ 0)
+  natOf := fun v => some v.toNat
+  ofNat := fun n => Int.ofNat n
+  ofBool := fun b => if b then 1 else 0
+  pyVars := ["two"]
+
+example : nestLine litVarDemo.body = true ∧ litTargets litVarDemo.body = ["two"]
+    ∧ (S6.pyVars.all (fun x => !(targetsTop litVarDemo.body).contains x)) = true
+    ∧ evalFunc S6 0 litVarDemo [1, 3] = some [9]
+    ∧ (match convert litVarDemo with
+       | .ok g => evalGraph S6 8 g [1, 3] == some [9]
+       | .error _ => false) = true := by
+  refine ⟨by decide +kernel, by decide +kernel, by decide +kernel, by decide +kernel, by decide +kernel⟩
+
+/-- Operators over `Int` where the attribute parameter `alpha` has the Python value `7`: `Constant(value_int=@alpha)`
+is `7`, like the `Constant` of the literal `7`. -/
+def S5 : Sem Int where
+  op := fun _ name ins attrs =>
+    match name, ins with
+    | "Constant", [] =>
+      (match attrs with
+       | [(_, .const "i:7")] => some [7]
+       | [(_, .ref "alpha")] => some [7]
+       | _ => some [0])
+    | "CastLike", [some a, some _] => some [a]
+    | "Add", [some a, some b] => some [a + b]
+    | "Mul", [some a, some b] => some [a * b]
+    | "Identity", [some a] => some [a]
+    | _, _ => none
+  truth := fun v => some (v ≠ 0)
+  natOf := fun v => some v.toNat
+  ofNat := fun n => Int.ofNat n
+  ofBool := fun b => if b then 1 else 0
+  attrLit := fun x => if x = "alpha" then some (.int 7) else none
+
+/-- Non-vacuity of "attribute parameters read as values": `def f(A, n, alpha: int): acc = A;
+for i in range(n): acc = acc * alpha + A; return acc + alpha` — the attribute is an operand inside the loop and in
+the returned expression; source and graph agree under `S5`. -/
+def attrValDemo : Func :=
+  { name := "f", params := [.tensor "A", .tensor "n", .attr "alpha" .int], retCount := none,
+    body := [
+      .assign "acc" (.var "A"),
+      .for_ "i" true (.var "n")
+        [.assign "acc" (.binop "Add" (.binop "Mult" (.var "acc") (.var "alpha")) (.var "A"))],
+      .ret [.binop "Add" (.var "acc") (.var "alpha")] false] }
+
+example : nestLine attrValDemo.body = true
+    ∧ (attrParams attrValDemo.params).all (fun p => !(targetsBlock attrValDemo.body).contains p) = true
+    ∧ evalFunc S5 0 attrValDemo [1, 2] = some [64]
+    ∧ (match convert attrValDemo with
+       | .ok g => evalGraph S5 8 g [1, 2] == some [64]
+       | .error _ => false) = true := by
+  refine ⟨by decide +kernel, by decide +kernel, by decide +kernel, by decide +kernel⟩
+
+/-- … and `S5` satisfies the hypothesis `hσ` of the theorems for that function. -/
+example : ∀ x l, S5.attrLit x = some l →
+    ∃ ty, Param.attr x ty ∈ attrValDemo.params ∧ AttrVal S5 x ty l := by
+  intro x l h
+  by_cases hx : x = "alpha"
+  · subst hx
+    simp only [S5, if_true] at h
+    cases h
+    refine ⟨.int, by simp [attrValDemo], ?_⟩
+    intro c hc
+    have h7 : constOf S5 (.int 7) = some 7 := by decide +kernel
+    have hc7 : c = 7 := by rw [h7] at hc; cases hc; rfl
+    subst hc7
+    rw [if_neg (by decide)]
+    exact ⟨"value_int", rfl, rfl⟩
+  · simp [S5, hx] at h
+
+/-! ### `to_model_proto`: the exported model means the function at its attribute defaults -/
+
+/-- **`exported_model_means_function_at_defaults`.**  For every graph `g`, every list `ds` of attribute parameters
+with their defaults, every operator meaning `S`, fuel and inputs: the main graph `to_model_proto` builds from `g`
+(3382c7a: every reference `@p`, at any depth of `If`/`Loop` bodies, replaced by the default of `p`) evaluates to
+exactly what `g` evaluates to when every operator resolves `@p` to that default (`S.atDefaults ds`).  Before
+3382c7a the references stayed in the main graph, where nothing gives them a value (C01-D41). -/
+theorem exported_model_means_function_at_defaults {V : Type} (S : Sem V) (ds : List (Name × Option String))
+    (g g' : Graph) (h : exportModel ds g = .ok g') (fuel : Nat) (args : List V) :
+    evalGraph S fuel g' args = evalGraph (S.atDefaults ds) fuel g args :=
+  exportModel_eval S h fuel args
+
+/-- **The exported model refines the source function** (stage 4 composed with the export): for a function of the
+nested-loop fragment that forwards attribute parameters to operators, the model `to_model_proto` builds evaluates
+to what the source yields as plain Python when those attribute parameters have their default values.  The
+hypotheses on the operator meaning are those of `convert_correct_nested_partial`, stated for `S` itself (they do
+not mention attribute references). -/
+theorem exported_model_correct_nested_partial {V : Type} (S : Sem V)
+    (hConst : ∀ l, ∃ c, constOf S l = some c)
+    (hId : ∀ v, S.op "" "Identity" [some v] [] = some [v])
+    (hTL : ∀ l c b, constOf S l = some c → truthPV S (.py l) = some b → S.truth c = some b)
+    (hT : S.truth (S.ofBool true) = some true)
+    (hNat : ∀ k c, constOf S (.int k) = some c → S.natOf c = some k.toNat)
+    (hNot : ∀ v b, S.truth v = some b → ∃ w, S.op "" "Not" [some v] [] = some [w] ∧ S.truth w = some (!b))
+    (hAnd : ∀ x y yb, S.truth y = some yb → ∃ w, S.op "" "And" [some x, some y] [] = some [w] ∧
+      (yb = false → S.truth w = some false) ∧ (yb = true → S.truth w = S.truth x))
+    (ds : List (Name × Option String))
+    (f : Func) (g g' : Graph) (hnl : nestLine f.body = true)
+    (hattr : ∀ p, p ∈ attrParams f.params → p ∉ targetsTop f.body)
+    (hσ : ∀ x l, (S.atDefaults ds).attrLit x = some l →
+      ∃ ty, Param.attr x ty ∈ f.params ∧ AttrVal (S.atDefaults ds) x ty l)
+    (hPy : ∀ x, x ∈ S.pyVars → x ∉ targetsTop f.body)
+    (hLT : ∀ x, x ∈ litTargets f.body → S.attrLit x = none ∧ x ∈ S.pyVars)
+    (hnames : (f.params.map Param.name).Nodup) (h : convert f = .ok g) (hx : exportModel ds g = .ok g')
+    (fuel : Nat) (args vs : List V) (he : evalFunc (S.atDefaults ds) fuel f args = some vs) :
+    ∃ fuel', evalGraph S fuel' g' args = some vs := by
+  have hc : ∀ l, constOf (S.atDefaults ds) l = constOf S l := fun l => by
+    simp [constOf, Sem.atDefaults, exportAttr]
+  obtain ⟨G, hG⟩ := convert_correct_nest (S.atDefaults ds)
+    (fun l => by rw [hc]; exact hConst l)
+    (fun v => by simpa [Sem.atDefaults] using hId v)
+    (fun l c b hcl hb => by
+      rw [hc] at hcl
+      have hb' : truthPV S (.py l) = some b := by cases l <;> simpa [truthPV] using hb
+      simpa [Sem.atDefaults] using hTL l c b hcl hb')
+    (by simpa [Sem.atDefaults] using hT)
+    (fun k c hk => by rw [hc] at hk; simpa [Sem.atDefaults] using hNat k c hk)
+    (fun v b hv => by simpa [Sem.atDefaults] using hNot v b hv)
+    (fun x y yb hy => by simpa [Sem.atDefaults] using hAnd x y yb hy)
+    hnl hattr hσ hPy hLT hnames h he
+  exact ⟨G, by rw [exportModel_eval S hx]; exact hG⟩
+
+/-- Non-vacuity: `attrDemo` exported with `alpha = 0.5`, `unused = 1` — the exported graph has no reference left and,
+under `S3` (where `Scale` with a constant `alpha` is the identity and with `@alpha` triples), evaluates to what the
+source yields with the attribute at its default. -/
+example : (match convert attrDemo with
+       | .ok g =>
+         (match exportModel [("alpha", some "f:0.5"), ("unused", some "i:1")] g with
+          | .ok g' => (attrRefs g'.nodes).isEmpty && (evalGraph S3 8 g' [2, 3] == some [2])
+          | .error _ => false)
+       | .error _ => false) = true
+    ∧ evalFunc (S3.atDefaults [("alpha", some "f:0.5"), ("unused", some "i:1")]) 0 attrDemo [2, 3] = some [2] := by
+  refine ⟨by decide +kernel, by decide +kernel⟩
 
 /-! ### The names a script function reads from its surroundings (`script()`: closure variables, then module globals) -/
 
